@@ -59,6 +59,7 @@ type Cluster struct {
 	blocked map[[2]uint64]bool
 	stopped bool
 	envStrict bool
+	nested    bool // inside a composite operation (heal): nested operations are not logged
 }
 
 func (c *Cluster) logOp(format string, a ...any) {
